@@ -117,6 +117,7 @@ func (r *Reporter) emit(v any) {
 
 // Case logs that a case is about to run (before any code under test is invoked).
 func (r *Reporter) Case(id string, params any) {
+	setCurrent(r, id)
 	r.emit(map[string]any{"ev": "case", "id": id, "params": params})
 }
 
